@@ -1,5 +1,5 @@
 # -*- coding: utf-8 -*-
-from .. Error import RINGError
+from .. Error import RINGError, RINGReaderError
 
 
 class Reader(object):
@@ -73,3 +73,8 @@ def Read(text, strict=False):
         return Reader(Parser.parse(text)).Read()
     except RINGError as exc:
         raise exc
+    except RecursionError:
+        # The parser and the readers are recursive: one level per chained
+        # atom, constraint, transformation, ...
+        raise RINGReaderError('Input is too long for the recursive RING '
+                              'parser (recursion limit exceeded)')
